@@ -15,7 +15,7 @@ class C09(Prop):
     id = 'C09'
     driver = 'drv_C09'
     model = 'C09'
-    level = 'partial'
+    level = 'proof'
     level_text = ('Machine-checked Coq theorems, for every file-system state, every content type and every operation list, about a '
                   'model that follows File::open and the FileHDF5 constructor statement by statement (missing file => Overwrite except '
                   'ReadOnly which is refused first, mode mapping, create => header, else checkHeader of C10, open-or-create of '
@@ -73,8 +73,6 @@ class C09(Prop):
         for (c, f) in plans:
             order = list(muts)
             rnd.shuffle(order)
-            if not thorough and (c, f) != plans[0]:
-                order = order[:len(order) // 3]          # quick: the second compression default on a random third
             for i in range(0, len(order), 6):
                 lines = ['fs missing'] + ['open rw %s 0' % (c if c != 'auto' else 'none')] + BUILD[1:] + ['close']
                 for m in order[i:i + 6]:
